@@ -395,6 +395,13 @@ func (run *propRun) report(id, tier string, seed int, start time.Time, update bo
 				l.Keys[o.Key] = LedgerE{Kind: o.Kind, Backend: "own", Paths: 1}
 			}
 		}
+		if ledger != nil {
+			for k := range ledger.Keys {
+				if _, ok := l.Keys[k]; !ok {
+					fmt.Printf("ledger: DROPPED %s (was claimed, is not discharged/generated now)\n", k)
+				}
+			}
+		}
 		b, _ := json.MarshalIndent(l, "", " ")
 		os.MkdirAll(filepath.Join(verifDir, "ledger"), 0o755)
 		os.WriteFile(filepath.Join(verifDir, "ledger", id+".json"), append(b, '\n'), 0o644)
